@@ -64,8 +64,16 @@ def triple_nt(tr):
     return "%s %s %s .\n" % (term_nt(tr[0]), term_nt(tr[1]), term_nt(tr[2]))
 
 
-def to_nt(triples):
-    return "".join(triple_nt(t) for t in triples)
+def to_nt(triples, comments=0):
+    """`comments` > 0: a comment line and a blank line (both valid N-Triples) after every `comments`-th statement"""
+    if not comments:
+        return "".join(triple_nt(t) for t in triples)
+    out = []
+    for i, t in enumerate(triples):
+        out.append(triple_nt(t))
+        if i % comments == 0:
+            out.append("# note alpha\n\n")
+    return "".join(out)
 
 
 def to_tsv(triples):
@@ -132,6 +140,8 @@ def _value(rng, kind, nodes, class_nodes=None):
         return rng.choice(class_nodes if class_nodes else nodes)
     if kind == "str":
         r = rng.random()
+        if r < 0.03:
+            return lit("", XSD + "string")      # the empty string is a value too
         if r < 0.15:     # strings with blanks and non-ASCII characters (readers, codecs and sinks must agree on them)
             return lit(rng.choice(["caf\u00e9 %d", "\u6771\u4eac %d", "na\u00efve v%d", "two words %d"]) % rng.randrange(10), XSD + "string")
         return lit("v%d" % rng.randrange(40), XSD + "string")
@@ -143,6 +153,9 @@ def _value(rng, kind, nodes, class_nodes=None):
         return lit("2020-01-0%d" % rng.randrange(1, 9), XSD + "date")
     if kind == "iri":   # an IRI that is not an instance of anything
         return iri(EX + "ext%d" % rng.randrange(6))
+    if kind == "cdt2":  # C09 only: lexical forms containing 'dt:' / 'geo:' (sheXer's N-Triples reader looks for these substrings
+        # in the whole token, so such literals get an odd kind - consistently; used where both sides share the reader)
+        return lit(rng.choice(["Stadt: Berlin", "geo: 4 5", "5", "plain"]), EX + "dt/km")
     if kind == "cdt":   # custom datatype; some lexical forms hold characters str.splitlines() would cut at
         return lit(rng.choice(["5", "7.5", "x\u2028y", "a\u0085b", "12 km"]), EX + "dt/km")
     if kind == "iri2":  # IRIs with another scheme than http(s)
@@ -404,11 +417,13 @@ def _pname_ok(local):
     return re.match(r"^[A-Za-z][A-Za-z0-9_]*$", local) is not None
 
 
-def to_turtle(triples, group=True, use_a=True, dialect="standard", prefixed_custom_datatypes=False, label_salt=0, base=None, full_nonhttp=False):
+def to_turtle(triples, group=True, use_a=True, dialect="standard", prefixed_custom_datatypes=False, label_salt=0, base=None, full_nonhttp=False, rebind=False, comments=False, stable_labels=False):
     """Turtle with @prefix lines, prefixed names, 'a', ';' and ',' grouping.
     dialect='iter': the subset sheXer's streaming reader documents (closures are
     separate tokens; datatypes written with the xsd: prefix or as full IRIs)."""
-    table = _prefix_table(triples)
+    # stable_labels: the labels do not depend on the order of the statements (a permuted document then differs from the
+    # original in statement order only)
+    table = _prefix_table(sorted(triples, key=repr) if stable_labels else triples)
     if label_salt:
         # rotate the labels: the same label then names different namespaces in different documents of one delivery
         keys = list(table)
@@ -443,10 +458,23 @@ def to_turtle(triples, group=True, use_a=True, dialect="standard", prefixed_cust
             # the streaming reader resolves only xsd:/rdf:/dt:/geo: datatype prefixes; others are written in full
             return '"%s"^^<%s>' % (lex, dt)
         return '"%s"^^%s:%s' % (lex, table[ns], local)
+    if rebind and len(triples) >= 4:
+        # one document in two sections; the second section re-binds the prefix labels (rotated by one)
+        k = len(triples) // 2
+        first = to_turtle(triples[:k], group, use_a, dialect, prefixed_custom_datatypes, label_salt, base, full_nonhttp, False, comments)
+        second = to_turtle(triples[k:], group, use_a, dialect, prefixed_custom_datatypes, label_salt + 1, None, full_nonhttp, False, comments)
+        if base:
+            # the second section would inherit @base: only sound if it has no non-http IRIs
+            if any(t[0] == "i" and not t[1].startswith("http") for tr in triples[k:] for t in tr):
+                first = to_turtle(triples[:k], group, use_a, dialect, prefixed_custom_datatypes, label_salt, None, full_nonhttp, False, comments)
+        return first + second
     out = ["@prefix %s: <%s> ." % (p, ns) for ns, p in table.items()]
     if base:
         out.insert(0, "@base <%s> ." % base)
     out.append("")
+    if comments:
+        out.append("# note alpha")
+        out.append("")
     if not group:
         for s, p, o in triples:
             out.append("%s %s %s ." % (term(s), term(p, True), term(o)))
